@@ -252,6 +252,8 @@ class CopyFault(object):
             if outer.n == outer.k:
                 data = src.read()
                 dst.write(data[: len(data) // 2])
+                if outer.errno is None:
+                    raise InjectedCrash("process dies half way through a copy inside the store")
                 raise OSError(outer.errno, os.strerror(outer.errno))
             return outer.real(src, dst, *a, **kw)
 
@@ -278,7 +280,7 @@ def store_fault_cases(part):
     with scratch("c18s") as d:
         for order in itertools.permutations(names):
             for k in range(1, len(names) + 1):
-                for en in (28, 5):  # ENOSPC, EIO
+                for en in (28, 5, None):  # ENOSPC, EIO, or the process dying at that point (None)
                     cfg = {"store_fault": True, "listdir_order": list(order), "copy": k, "errno": en}
                     part.case(nontrivial=True)
                     work, store = setup_work(d, {"img1": list(names)})
@@ -291,6 +293,8 @@ def store_fault_cases(part):
                         raised = True
                     except Exception:
                         raised = True
+                    except InjectedCrash:
+                        raised = True
                     st = store_state(store, "img1", names)
                     others_ok = all(v == "complete" for n, v in st.items() if n != "index.wtml")
                     if st["index.wtml"] != "absent" and not others_ok:
@@ -299,6 +303,15 @@ def store_fault_cases(part):
                         part.violation("publish-succeeds-with-incomplete-store/mode=store-oserror", "%r: publish returned normally although a copy inside the store failed; store state %r" % (cfg, st), cfg)
                     if os.path.isdir(os.path.join(work, "published", "img1")) and not all(v == "complete" for v in st.values()):
                         part.violation("moved-to-published-while-incomplete/mode=store-oserror", "%r: %r" % (cfg, st), cfg)
+                    # whatever the failure left in the store (torn files, temporaries), re-running publish completes the job
+                    try:
+                        with quiet():
+                            PipelineManager(work).publish()
+                        st2 = store_state(store, "img1", names)
+                        if not all(v == "complete" for v in st2.values()) or not os.path.isdir(os.path.join(work, "published", "img1")):
+                            part.violation("recovery-incomplete/mode=%s" % ("store-death" if en is None else "store-oserror"), "%r: after re-running publish the store has %r" % (cfg, st2), cfg)
+                    except Exception as e:
+                        part.violation("recovery-raises:%s/mode=%s" % (type(e).__name__, "store-death" if en is None else "store-oserror"), "%r: re-running publish after the failure raised %r" % (cfg, e), cfg)
 
 
 def gen_cases(tier):
